@@ -19,7 +19,7 @@ RULE = ('enumerate every pair 0<=n<=m<=M (M=70 quick, 200 thorough; x~n when n==
 ASSUMPTIONS = ['terminals are distinct single characters so that the token count equals the repetition count',
                'inside terminals n=0 lets the terminal match the empty string (documented zero-width error), outside the property: not generated']
 
-KINDS = ('term', 'anon', 'rule', 'group', 'tmpl', 'interm', 'altgroup')
+KINDS = ('term', 'anon', 'rule', 'group', 'tmpl', 'interm', 'altgroup', 'intermseq')
 
 
 def grammar_for(kind, n, m):
@@ -39,6 +39,10 @@ def grammar_for(kind, n, m):
         return 'start: "<" (X | Y)%s ">"\nX: "x"\nY: "y"' % rep, 'ALT', 1
     if kind == 'interm':
         return 'start: "<" T ">"\nT: "x"%s' % rep, 'x', 1
+    if kind == 'intermseq':
+        # inside a terminal, the repeated operand is a sequence: an alternation group followed by a literal ")" (the quantifier
+        # must bind to the whole sequence)
+        return 'start: "<" T ">"\nT: (("x" | "y") ")")%s' % rep, 'SEQ', 1
     raise ValueError(kind)
 
 
@@ -57,6 +61,10 @@ def check_children(kind, t, k, per, case):
         if len(ch) != 1 or not isinstance(ch[0], Tree) or ch[0].data != 'rp':
             raise Violation('template node missing', case=case, k=k, tree=repr(t)[:300])
         ch = ch[0].children
+    if kind == 'intermseq':
+        if len(ch) != 1 or str(ch[0]) != ''.join('xyyx'[i % 4] + ')' for i in range(k)):
+            raise Violation('terminal repetition matched wrong text', case=case, k=k, tree=repr(t)[:300])
+        return
     if kind == 'interm':
         if len(ch) != 1 or str(ch[0]) != 'x' * k:
             raise Violation('terminal repetition matched wrong text', case=case, k=k, tree=repr(t)[:300])
@@ -85,7 +93,7 @@ def check(case, ctx):
     ctx.label('kind:' + kind, 'parser:' + parser, 'factored' if m >= 50 else 'naive')
     sparse = bool(case.get('sparse'))
     for k in ks_for(parser, n, m, sparse):
-        txt = '<' + (unit * k if unit != 'ALT' else ('xyyx' * k)[:k]) + '>'
+        txt = '<' + (''.join('xyyx'[i % 4] + ')' for i in range(k)) if unit == 'SEQ' else (unit * k if unit != 'ALT' else ('xyyx' * k)[:k])) + '>'
         try:
             t = p.parse(txt); acc = True
         except UnexpectedInput:
@@ -107,7 +115,7 @@ def enum_pairs(M, parser, kinds):
         for m in range(M, -1, -1):
             for n in range(m + 1):
                 for kind in kinds:
-                    if kind == 'interm' and n == 0:
+                    if kind in ('interm', 'intermseq') and n == 0:
                         continue    # the terminal could match the empty string: outside the property
                     if kind == 'altgroup' and 5 < m < 50:
                         continue    # below the factoring threshold lark distributes the alternation into 2^k alternatives per count
@@ -220,7 +228,7 @@ def check_combo(case, ctx):
 def sampled_pairs(maxm):
     return st.tuples(st.integers(57, maxm), st.integers(0, 10**6), st.sampled_from(KINDS), st.sampled_from(['lalr', 'lalr', 'earley']),
                      st.booleans()).map(
-        lambda t: {'kind': t[2], 'm': t[0], 'n': (t[0] if t[4] and t[1] % 3 == 0 else t[1] % (t[0] + 1)) or (1 if t[2] == 'interm' else 0),
+        lambda t: {'kind': t[2], 'm': t[0], 'n': (t[0] if t[4] and t[1] % 3 == 0 else t[1] % (t[0] + 1)) or (1 if t[2] in ('interm', 'intermseq') else 0),
                    'parser': t[3], 'sparse': True})
 
 
